@@ -3,6 +3,8 @@
 -/
 import Cvss.Model.Any
 import Cvss.Spec.Severity
+import Cvss.Lemmas.Construct
+import Cvss.Lemmas.Rh
 namespace Cvss.Props.C09
 open Cvss Cvss.Model
 
@@ -33,5 +35,79 @@ theorem v4_rating_views (o : V4.Obj) (s : Str) (m : MMap) (h : V4.build s m = so
       simp [h2] at h
       subst h
       simp [AnyObj.severities, V4.Obj.severities]
+
+/-- a well-formed score: an integer number of tenths between 0.0 and 10.0 -/
+def IsScore (x : Rat) : Prop := ∃ k : Nat, k ≤ 100 ∧ x = (k : Rat) / 10
+
+/-- the tenths of a well-formed score -/
+def tenths (x : Rat) : Nat := (x * 10).floor.toNat
+
+/-- the tenths of `k/10` are `k` -/
+theorem tenths_of_nat (k : Nat) : tenths ((k : Rat) / 10) = k := Lemmas.Rh.tenths_of_nat k
+
+/-- on a well-formed (or undefined) score the v2 rating function is the NVD scale -/
+theorem sev2_official (sc : Option Rat) (h : ∀ x, sc = some x → IsScore x) :
+    V2.sevOf sc = Spec.Severity.rating2 (sc.map tenths) := by
+  cases sc with
+  | none => exact rating_v2_official.1
+  | some x =>
+    obtain ⟨k, hk, rfl⟩ := h x rfl
+    simp only [Option.map_some, tenths_of_nat]
+    exact rating_v2_official.2 k (List.mem_range.2 (by omega))
+
+/-- on a well-formed score the v3 rating function is the official scale -/
+theorem sev3_official (x : Rat) (h : IsScore x) : V3.sevOf x = Spec.Severity.rating34 (tenths x) := by
+  obtain ⟨k, hk, rfl⟩ := h
+  rw [tenths_of_nat]
+  exact rating_v3_official k (List.mem_range.2 (by omega))
+
+/-- v2: every reported score is well-formed; `None` occurs only for the temporal / environmental slot and
+    exactly when every metric of that group is absent or ND; each rating is the NVD rating of its score
+    ("None" for an undefined score) -/
+theorem v2_scores_wellformed (s : Str) (o : V2.Obj) (h : V2.construct s = .ok o) :
+    IsScore o.base ∧ (∀ x, o.temporal = some x → IsScore x) ∧ (∀ x, o.env = some x → IsScore x) ∧
+    (o.temporal = none ↔ ∀ k ∈ Gen.V2.temporal, assignment V2.ND o.metrics k = V2.ND) ∧
+    (o.env = none ↔ ∀ k ∈ Gen.V2.environmental, assignment V2.ND o.metrics k = V2.ND) ∧
+    o.severities = o.scores.map (fun sc => Spec.Severity.rating2 (sc.map tenths)) := by
+  obtain ⟨hb, ht, he⟩ := Lemmas.Rh.v2_obj_range h
+  have hb' : IsScore o.base := hb
+  have ht' : ∀ x, o.temporal = some x → IsScore x := ht
+  have he' : ∀ x, o.env = some x → IsScore x := he
+  refine ⟨hb', ht', he', ?_, ?_, ?_⟩
+  · obtain ⟨m, hp, rfl⟩ := (Lemmas.Construct.v2_construct_ok_iff s o).1 h
+    simp only [Gen.V2.temporal, List.mem_cons, List.not_mem_nil, or_false, forall_eq_or_imp, forall_eq]
+    exact (C03.v2_none_iff (assignment V2.ND m)).1
+  · obtain ⟨m, hp, rfl⟩ := (Lemmas.Construct.v2_construct_ok_iff s o).1 h
+    simp only [Gen.V2.environmental, List.mem_cons, List.not_mem_nil, or_false, forall_eq_or_imp, forall_eq]
+    exact (C03.v2_none_iff (assignment V2.ND m)).2
+  · simp only [V2.Obj.severities, V2.Obj.scores, List.map_cons, List.map_nil]
+    rw [sev2_official (some o.base) (by intro x hx; cases hx; exact hb'),
+      sev2_official o.temporal ht', sev2_official o.env he']
+
+/-- v3: every reported score is well-formed and each rating is the official rating of its score -/
+theorem v3_scores_wellformed (s : Str) (o : V3.Obj) (h : V3.construct s = .ok o) :
+    IsScore o.base ∧ IsScore o.temporal ∧ IsScore o.env ∧
+    o.severities = [o.base, o.temporal, o.env].map (fun x => Spec.Severity.rating34 (tenths x)) := by
+  obtain ⟨hb, ht, he⟩ := Lemmas.Rh.v3_obj_range h
+  have hb' : IsScore o.base := hb
+  have ht' : IsScore o.temporal := ht
+  have he' : IsScore o.env := he
+  refine ⟨hb', ht', he', ?_⟩
+  simp only [V3.Obj.severities, List.map_cons, List.map_nil]
+  rw [sev3_official _ hb', sev3_official _ ht', sev3_official _ he']
+
+/-- the score printed in `rh_vector()` / the JSON is the one-decimal text of the score: digits, a point, one digit -/
+theorem showScore_wellformed (x : Rat) (hx : IsScore x) :
+    showScore x = natToStr (tenths x / 10) ++ '.' :: [digitChar (tenths x % 10)] ∧ tenths x ≤ 100 ∧
+      x = (tenths x : Rat) / 10 := by
+  obtain ⟨k, hk, rfl⟩ := hx
+  rw [tenths_of_nat]
+  refine ⟨?_, hk, rfl⟩
+  have hd : ∀ d, d < 10 → Nat.digitChar d = digitChar d := by decide
+  have hlt : k % 10 < 10 := Nat.mod_lt _ (by decide)
+  show natToStr (tenths ((k : Rat) / 10) / 10) ++ '.' :: natToStr (tenths ((k : Rat) / 10) % 10) = _
+  rw [tenths_of_nat]
+  show _ ++ '.' :: Nat.toDigits 10 (k % 10) = _
+  rw [Nat.toDigits_of_lt_base hlt, hd _ hlt]
 
 end Cvss.Props.C09
